@@ -738,16 +738,22 @@ C14.manifest = {
             "names and an edge list the specs admit, in any order, stores exactly those nodes in order and exactly that edge multiset "
             "(C14_rebuild, any name type); together: write-then-read with the same specs succeeds and returns the same names in the same "
             "order, the same directedness and the same edge multiset with identical weights (C14_roundtrip, C14_roundtrip_elements_full), "
-            "and never panics (C14_roundtrip_no_panic). The well-formedness hypotheses are evaluated on every generated graph by a "
-            "verified checker (C14_wf_check_sound, observation 31). Validated per generated graph on the implementation (oracle "
+            "and never panics (C14_roundtrip_no_panic). ROUND 2: the well-formedness hypotheses are PROVED for every state satisfying the "
+            "coherence invariant WF of C01-C03, any name type (C14_WF_is_wellformed: distinct names; the stored edge list in its "
+            "stored order is admissible - endpoints are nodes, no forbidden self-loop, canonical orientation when undirected, no "
+            "repeated pair unless multi), hence for every graph reachable by any history of add_node(s)/add_edge(s) "
+            "(C14_reachable_is_wellformed), and the round trip is stated for EVERY reachable graph without a side condition "
+            "(C14_roundtrip_reachable: read(write g) with g's specs = Ok g', g' reachable, same names in order, same specs, same "
+            "edge multiset with identical weights). They are in addition still evaluated on every generated graph by a "
+            "verified checker (C14_wf_check_sound, observation 31; kept as a tie between model and code). Validated per generated graph on the implementation (oracle "
             "independent of the model): node order, directedness, edge multiset with bit-identical weights after write+read, string and "
             "file variant, file bytes = string bytes; plus: writer model's events = quick-xml's tokens of the real document, model reader "
             "on those tokens = real read-back.",
     "note": "Hypotheses of the round-trip theorems: the two float oracles (Display emits no markup; FromStr inverts Display), "
             "satisfiable (roundtrip_hyps_satisfiable) and sampled every run against Rust's std (every exponent x 8 mantissas x 2 signs "
             "+ 40k/2M random bit patterns, bit-equality), and well-formedness of the written graph (distinct names, admissible edges; "
-            "non-vacuous: roundtrip_full_nonvacuous; that every reachable Graph satisfies it is the WF invariant of C01, here checked per "
-            "case). Modelled, not verified: quick-xml tokenizer/serializer (the model runs on quick-xml's own events of the real document "
+            "non-vacuous: roundtrip_full_nonvacuous; that every reachable Graph satisfies it was checked per case in round 1 and is a "
+            "theorem since round 2: Proofs/GraphMLStateOk.v, from WF via stored_edge_ok / stored_distinct of C15). Modelled, not verified: quick-xml tokenizer/serializer (the model runs on quick-xml's own events of the real document "
             "and the writer model's events are compared with them). Axioms: none.",
     "technique": "Coq proof (structural induction, invariants) + differential correspondence vs vm_compute model + implementation-level round-trip oracle",
 }
@@ -778,12 +784,21 @@ C19.manifest = {
             "elements in order with their weight data, under the supplied specs with the declared directedness (C19_ok_content, "
             "C19_ok_directed). Validated per document: outcome kind and graph equal the model run on quick-xml's events of the same "
             "document; never panic / hang (10 s watchdog); Ok graphs are valid for the specs; generated well-formed GraphML yields exactly "
-            "its elements; constructor result agrees with the spec layer (Spec/AGraph.v spec_new_from) on every case.",
+            "its elements; constructor result agrees with the spec layer (Spec/AGraph.v spec_new_from) on every case. ROUND 2 "
+            "(Proofs/GraphMLStateOk.v): C19_constructor_refines_spec - for EVERY node list, edge list and specs, any name type, "
+            "Graph::new_from_nodes_and_edges returns the same error as spec_new_from or a state that satisfies the coherence "
+            "invariant and represents the abstract result (same specs, same node list, the same edge multiset); this needed "
+            "C19_spec_add_edge_permutation_invariant (the policy ladder does not depend on the order of the abstract edge list, "
+            "because the concrete store groups edges by pair); C19_reader_refines_spec - the reader as a whole: ReadError exactly "
+            "when the document is refused, otherwise the spec-layer constructor's result on the document's elements; "
+            "C19_ok_valid - an Ok result is a state reachable through the public mutation API and satisfies the FULL coherence "
+            "invariant WF of all twelve fields (C19_ok_indexes gave only the index part).",
     "note": "Model of the code AFTER the fix commits b5a873a (F12: the pinned tree panicked on 4 input classes) and 811b5e5 (F20: the "
             "event after a weight <data> start tag was skipped, losing elements and swallowing parser errors); both confirmed, repaired. "
             "Modelled, not verified: quick-xml's tokenizer (a panic or hang inside it is covered only by the document stream: every "
             "single-byte truncation/deletion/duplication/replacement of the seeds, grammar documents). The refinement constructor-model -> "
-            "spec_new_from is validated per case (observation 8), not proved here. Axioms: none.",
+            "spec_new_from was validated per case in round 1 (observation 8) and is proved since round 2 (see text); the "
+            "observation is kept as a tie between model and code. Axioms: none.",
     "technique": "Coq proof (invariants over the event loop and the constructor) + differential correspondence vs vm_compute model on quick-xml events + oracle",
 }
 C19.assumptions = [
